@@ -1426,6 +1426,15 @@ class Interp:
             parts = head[1].split('::')
             meth_outer = parts[-2]
             cands = [n for n in self.p.by_last.get(method, []) if re.search(r'::' + re.escape(meth_outer) + r'::<impl at [^>]*>::' + re.escape(method) + r'(#\d+)?$', n)]
+            if '@impl' in parts:
+                # declared inside a method of a trait impl of module `mod`: same module, and the receiver / return type names the local type
+                mod = '::'.join(parts[1:parts.index('@impl')])
+                cands = [n for n in cands if same_name(n.split('::<impl at')[0], mod) or n.startswith(mod + '::') or ('::' + mod + '::') in ('::' + n)]
+                if len(cands) > 1:
+                    nm = parts[-1]
+                    ex = [n for n in cands if re.search(r'\b' + re.escape(nm) + r'\b', self.p.fns[n].header.split('::' + method)[-1])]
+                    if ex:
+                        cands = ex
             if len(cands) == 1:
                 b = dict(ctx.fr.tenv)
                 f = self.p.fns[cands[0]]
